@@ -50,5 +50,15 @@ package header
 //@ func (injector).Inject
 //@ safety
 //@ prop C07
+//@ requires[config:constructor-appends-only-non-nil-injectors] forall k int :: 0 <= k && k < len(i.valueInjectors) ==> i.valueInjectors[k] != nil
 //@ at call inject assert[each-value-injector-on-this-header-and-session] arg(inject, 0) == header && arg(inject, 1) == session
 //@     && recv(inject) == i.valueInjectors[rangeindex + 1]
+
+// every injector implementation only writes the header map it is given (verified above for each closure)
+//@ iface valueInjector.inject
+//@ prop C07
+//@ modifies a0.hdr
+
+//@ iface Injector.Inject
+//@ prop C07
+//@ modifies a0.hdr
